@@ -87,8 +87,15 @@ impl LState {
         }
         s
     }
+    /// The lower allocator over this state, shaped exactly as `Lower::new` shapes it for `frames`:
+    /// ceil(frames/LEN) bitfields and ceil(frames/TREE_FRAMES) tables.
     pub fn lower(&self, frames: usize) -> Lower<'_> {
-        Lower { len: frames, bitfields: &self.bfs, children: &self.ch }
+        Lower { len: frames, bitfields: &self.bfs[..frames.div_ceil(LEN)], children: &self.ch[..frames.div_ceil(TREE_FRAMES)] }
+    }
+    /// Same, with the slice shapes given by the constant number of bitfields B (keeps slice lengths
+    /// concrete for CBMC when `frames` is symbolic inside the range of B).
+    pub fn lower_shaped<const B: usize>(&self, frames: usize) -> Lower<'_> {
+        Lower { len: frames, bitfields: &self.bfs[..B], children: &self.ch[..B.div_ceil(TREE_HUGE)] }
     }
     pub fn snap(&self, z: [usize; NBF]) -> LSnap {
         let mut rows = [[0u64; ROWS]; NBF];
@@ -423,3 +430,267 @@ macro_rules! lower_harness {
     };
 }
 include!("_lower_harnesses.rs");
+
+// ---------------------------------------------------------------------------------------------
+// Partial last tree: representation invariant for an arbitrary managed frame count.
+//   bitfield h exists iff h*LEN < frames; bits at or beyond `frames` are set; table entries whose
+//   bitfield does not exist carry counter 0.
+// ---------------------------------------------------------------------------------------------
+fn prefix_rows(k: usize) -> Rows {
+    // bits [0,k) zero, bits [k,LEN) one
+    let mut r = [0u64; ROWS];
+    let mut i = 0;
+    while i < ROWS {
+        let lo = i * 64;
+        r[i] = if k >= lo + 64 { 0 } else if k <= lo { u64::MAX } else { u64::MAX << (k - lo) };
+        i += 1;
+    }
+    r
+}
+/// Bits at or beyond the managed range are set in bitfield `h`.
+fn tail_set(rows: &Rows, h: usize, frames: usize) -> bool {
+    let k = if frames >= (h + 1) * LEN { LEN } else if frames <= h * LEN { 0 } else { frames - h * LEN };
+    let t = prefix_rows(k);
+    let mut ok = true;
+    let mut i = 0;
+    while i < ROWS {
+        if rows[i] & t[i] != t[i] {
+            ok = false;
+        }
+        i += 1;
+    }
+    ok
+}
+pub(crate) fn wf_lower_frames(s: &LSnap, frames: usize) -> bool {
+    let mut ok = true;
+    let nbf = frames.div_ceil(LEN);
+    let ntab = frames.div_ceil(TREE_FRAMES);
+    let mut h = 0;
+    while h < NBF {
+        if h < nbf {
+            if ent_huge(s.ent[h]) {
+                if !all_rows(&s.rows[h], 0) || frames < (h + 1) * LEN {
+                    ok = false;
+                }
+            } else if s.ent[h] as usize > LEN || s.ent[h] as usize != s.z[h] {
+                ok = false;
+            }
+            if !tail_set(&s.rows[h], h, frames) {
+                ok = false;
+            }
+        } else if h < ntab * TREE_HUGE && s.ent[h] != 0 {
+            ok = false;
+        }
+        h += 1;
+    }
+    ok
+}
+
+// ---------------------------------------------------------------------------------------------
+// C06: Lower::free_all / Lower::reserve_all for EVERY frame count 1..=NT*TREE_FRAMES
+// ---------------------------------------------------------------------------------------------
+/// Frame count with exactly B bitfields: frames in ((B-1)*LEN, B*LEN]. One obligation per B keeps
+/// every slice length concrete; together the obligations cover every frame count 1..=NT*TREE_FRAMES.
+fn any_frames_with<const B: usize>() -> usize {
+    let k: usize = kani::any();
+    kani::assume(k >= 1 && k <= LEN);
+    (B - 1) * LEN + k
+}
+fn any_raw_state() -> (LState, [Rows; NBF], [u16; NBF]) {
+    let rows: [Rows; NBF] = kani::any();
+    let ent: [u16; NBF] = kani::any();
+    (LState::from(&rows, &ent), rows, ent)
+}
+
+/// Install the ghost rows for the `fill`/`set` contract stubs.
+fn ghost_rows_install(st: &LState, rows0: &[Rows; NBF]) {
+    use crate::bitfield::verif_contracts::{G_BASE, G_ROWS, G_STRIDE};
+    unsafe {
+        G_BASE = &st.bfs[0] as *const Align<Bitfield> as usize;
+        G_STRIDE = core::mem::size_of::<Align<Bitfield>>();
+        let mut h = 0;
+        while h < NBF {
+            G_ROWS[h] = rows0[h];
+            h += 1;
+        }
+    }
+}
+fn ghost_rows(h: usize) -> Rows {
+    unsafe { crate::bitfield::verif_contracts::G_ROWS[h] }
+}
+
+/// C06 free-all for every frame count with B bitfields (symbolic count inside the range).
+fn c06_free_all<const B: usize>() {
+    let (st, rows0, ent0) = any_raw_state();
+    ghost_rows_install(&st, &rows0);
+    let frames = any_frames_with::<B>();
+    let lower = st.lower_shaped::<B>(frames);
+    lower.free_all();
+    let new = st.snap([0; NBF]);
+    let nbf = B;
+    let ntab = B.div_ceil(TREE_HUGE);
+    let h: usize = kani::any();
+    kani::assume(h < NBF);
+    vcover!(frames % LEN != 0 && h == nbf - 1, "partial last bitfield");
+    vcover!(frames % LEN == 0, "whole huge frames");
+    clause!(rows_eq(&new.rows[h], &rows0[h]), "free-all reaches bitfields only through fill/set (ghost stubs)");
+    if h < nbf {
+        let k = if frames >= (h + 1) * LEN { LEN } else { frames - h * LEN };
+        clause!(rows_eq(&ghost_rows(h), &prefix_rows(k)), "C06 free-all: exactly the managed frames are free, every bit at or beyond the frame count is set");
+        clause!(new.ent[h] as usize == k, "C06 free-all: counter equals the number of managed frames of the huge frame");
+    } else {
+        clause!(rows_eq(&ghost_rows(h), &rows0[h]), "C06/C18 free-all writes no bitfield outside the metadata of this frame count");
+        if h < ntab * TREE_HUGE {
+            clause!(new.ent[h] == 0, "C06 free-all: table entries beyond the last bitfield carry counter 0");
+        } else {
+            clause!(new.ent[h] == ent0[h], "C06/C18 free-all writes no table outside the metadata of this frame count");
+        }
+    }
+}
+
+fn c06_reserve_all<const B: usize>() {
+    let (st, rows0, ent0) = any_raw_state();
+    ghost_rows_install(&st, &rows0);
+    let frames = any_frames_with::<B>();
+    let lower = st.lower_shaped::<B>(frames);
+    lower.reserve_all();
+    let new = st.snap([0; NBF]);
+    let nbf = B;
+    let ntab = B.div_ceil(TREE_HUGE);
+    let h: usize = kani::any();
+    kani::assume(h < NBF);
+    vcover!(frames % LEN != 0 && h == nbf - 1, "partial last bitfield");
+    clause!(rows_eq(&new.rows[h], &rows0[h]), "allocate-all reaches bitfields only through fill (ghost stubs)");
+    if h < frames / LEN {
+        clause!(ent_huge(new.ent[h]) && all_rows(&ghost_rows(h), 0), "C06 allocate-all: every whole huge frame is allocated as a whole (marker set, bitfield empty)");
+    } else if h < nbf {
+        clause!(new.ent[h] == 0 && all_rows(&ghost_rows(h), u64::MAX), "C06 allocate-all: the partial last huge frame is allocated frame by frame (counter 0, all bits set)");
+    } else {
+        clause!(rows_eq(&ghost_rows(h), &rows0[h]), "C06/C18 allocate-all writes no bitfield outside the metadata of this frame count");
+        if h < ntab * TREE_HUGE {
+            clause!(new.ent[h] == 0, "C06 allocate-all: table entries beyond the last bitfield carry counter 0");
+        } else {
+            clause!(new.ent[h] == ent0[h], "C06/C18 allocate-all writes no table outside the metadata of this frame count");
+        }
+    }
+}
+
+/// C09: frame count 0 (no tables, no bitfields) must not panic in any initialisation mode.
+#[kani::proof]
+#[kani::unwind(10)]
+fn c09_init_zero_frames() {
+    let (st, _, _) = any_raw_state();
+    let lower = st.lower(0);
+    let k: u8 = kani::any();
+    match k % 3 {
+        0 => lower.free_all(),
+        1 => lower.reserve_all(),
+        _ => lower.recover(),
+    }
+    clause!(lower.stats().free_frames == 0, "C06: an allocator over zero frames reports nothing free");
+}
+
+// ---------------------------------------------------------------------------------------------
+// C05: Lower::recover from ANY persistent state (no invariant assumed), every frame count.
+//   count_zeros is used through its contract: it returns the (opaque) ghost zeros of the bitfield.
+// ---------------------------------------------------------------------------------------------
+pub(crate) static mut GHOST_Z: [usize; NBF] = [0; NBF];
+pub(crate) static mut GHOST_BF0: usize = 0; // address of bitfield 0
+impl Bitfield {
+    /// Contract stub of `count_zeros` (checked by bitfield::l1a_fill_count_zeros: it is the popcount).
+    pub(crate) fn count_zeros_contract(&self) -> usize {
+        let idx = (self as *const Self as usize - unsafe { GHOST_BF0 }) / core::mem::size_of::<Align<Bitfield>>();
+        unsafe { GHOST_Z[idx] }
+    }
+}
+/// Effective allocation status used by C05 (`eff`): marker or bit.
+fn eff_same_everywhere(old: &LSnap, new: &LSnap, nbf: usize) -> bool {
+    let mut ok = true;
+    let mut h = 0;
+    while h < NBF {
+        if h < nbf {
+            let ho = ent_huge(old.ent[h]);
+            let hn = ent_huge(new.ent[h]);
+            if ho != hn {
+                ok = false;
+            }
+            if !ho && !rows_eq(&old.rows[h], &new.rows[h]) {
+                ok = false;
+            }
+        }
+        h += 1;
+    }
+    ok
+}
+fn c05_recover_any_state<const B: usize>() {
+    let (st, rows, ent) = any_raw_state();
+    let z: [usize; NBF] = kani::any();
+    let old = LSnap { rows, ent, z };
+    kani::assume(ghost_zeros_facts(&old));
+    unsafe {
+        GHOST_Z = z;
+        GHOST_BF0 = &st.bfs[0] as *const Align<Bitfield> as usize;
+    }
+    let frames = any_frames_with::<B>();
+    let nbf = frames.div_ceil(LEN);
+    // the only part of the invariant that is not recomputed by recovery: bits beyond the range are set
+    // and a whole-allocated huge frame lies entirely inside the range (initialisation establishes both
+    // and no operation writes there)
+    let mut h = 0;
+    while h < NBF {
+        if h < nbf {
+            kani::assume(tail_set(&old.rows[h], h, frames));
+            kani::assume(!ent_huge(old.ent[h]) || frames >= (h + 1) * LEN);
+        } else if h < frames.div_ceil(TREE_FRAMES) * TREE_HUGE {
+            kani::assume(old.ent[h] == 0);
+        }
+        h += 1;
+    }
+    let lower = st.lower_shaped::<B>(frames);
+    lower.recover();
+    let mut new = st.snap(z);
+    // ghost: a bitfield cleared by recovery has LEN zeros (Z2); untouched bitfields keep theirs
+    let mut h = 0;
+    while h < NBF {
+        if !rows_eq(&old.rows[h], &new.rows[h]) {
+            clause!(all_rows(&new.rows[h], 0), "C05: recovery changes a bitfield only by clearing it");
+            new.z[h] = LEN;
+        }
+        h += 1;
+    }
+    vcover!(frames % LEN != 0, "partial last huge frame");
+    clause!(eff_same_everywhere(&old, &new, nbf), "C05: recovery keeps the allocation status of every frame (marker or bit)");
+    clause!(wf_lower_frames(&new, frames), "C05: recovery establishes the lower invariant (counter == zeros, marker => empty bitfield)");
+}
+
+macro_rules! recover_harness {
+    ($f:ident, $($name:ident: $b:expr),+) => {
+        $(
+        #[kani::proof]
+        #[kani::unwind(10)]
+        #[kani::solver(kissat)]
+        #[kani::stub(crate::bitfield::Bitfield::count_zeros, crate::bitfield::Bitfield::count_zeros_contract)]
+        fn $name() {
+            $f::<$b>();
+        }
+        )+
+    };
+}
+macro_rules! init_harness {
+    ($f:ident, $($name:ident: $b:expr),+) => {
+        $(
+        #[kani::proof]
+        #[kani::unwind(10)]
+        #[kani::solver(kissat)]
+        #[kani::stub(crate::bitfield::Bitfield::count_zeros, crate::bitfield::Bitfield::count_zeros_contract)]
+        #[kani::stub(crate::bitfield::Bitfield::fill, crate::bitfield::Bitfield::fill_contract)]
+        #[kani::stub(crate::bitfield::Bitfield::set, crate::bitfield::Bitfield::set_contract)]
+        fn $name() {
+            $f::<$b>();
+        }
+        )+
+    };
+}
+include!("_lower_init_harnesses.rs");
+
+
